@@ -33,6 +33,19 @@ PROBES = {
                          "for _, fn in ipairs({require, _cached_mod}) do local m = try(fn, v) "
                          "if type(m) == 'table' and (has(m.open) or has(m.execute) or has(m.loadlib) or has(m.getupvalue) or has(m.eval) or has(m.loadstring)) "
                          "then hit = hit or ('ESCAPE:require-spelling:' .. base) end end end end return hit or 'ok'",
+    # verdicts of the attribute filter must not depend on what was looked at before: read attributes of a non-callable Python
+    # object first (an exception caught with pcall), then the same names on the Python helpers
+    "filter-order": "local names = {'args', 'func', 'keywords', 'with_traceback', 'add_note', 'real', 'imag', 'count', 'index'} "
+                    "local objs = {} "
+                    "local function grab(f, ...) local ok, e = pcall(f, ...) if not ok and type(e) == 'userdata' then objs[#objs + 1] = e end end "
+                    "grab(frame.expandTemplate, frame, {title = 'x', args = 'abc'}) grab(frame.callParserFunction, frame, {name = 7}) "
+                    "grab(frame.preprocess, frame, {}) grab(mw_python_get_page_info) grab(mw_python_get_page_content, {}, {}, {}) "
+                    "for _, o in ipairs(objs) do for _, n in ipairs(names) do try(function() return o[n] end) end end "
+                    "local hit = nil "
+                    "for _, h in ipairs({mw_python_get_page_info, mw_python_get_page_content, mw_python_fetch_language_name, "
+                    "mw_python_fetch_language_names}) do for _, n in ipairs(names) do "
+                    "local v = try(function() return h[n] end) if v ~= nil then hit = hit or ('ESCAPE:python-object:helper.' .. n) end end end "
+                    "return hit or ('ok objs=' .. #objs)",
     "require-table-real": "local m = try(require, 'string') return 'ok'",
     # ---- sandbox internals exposed as globals
     "cached-mod-io": "local m = _cached_mod and try(_cached_mod, 'io') return (type(m) == 'table' and has(m.open)) and 'ESCAPE:io' or 'ok'",
